@@ -131,6 +131,8 @@ class C15(Prop):
             'funcs': st.lists(func, min_size=1, max_size=4),
             'tps': st.lists(tp, min_size=1, max_size=4),
             'threads': st.lists(st.tuples(st.integers(0, 3), st.integers(0, 3)).map(list), min_size=1, max_size=3),
+            # how many span processors are installed: each opens (and must get closed) a span of its own per hit
+            'span_procs': st.sampled_from([1, 1, 2, 3]),
         })
 
     def run_case(self, recipe):
@@ -167,9 +169,11 @@ class C15(Prop):
             tpdefs[tid] = (k, fi)
             if 'capture' in k:
                 out.cls('capture')
-        spanp = lab.RecSpanProcessor()
+        spanps = [lab.RecSpanProcessor(name='RecSpanProcessor%d' % i) for i in range(recipe.get('span_procs') or 1)]
+        if len(spanps) > 1:
+            out.cls('several_span_processors')
         push = lab.RecPush()
-        handler, cfg, _ = lab.make_handler(triggers, plugins=[spanp], push=push)
+        handler, cfg, _ = lab.make_handler(triggers, plugins=spanps, push=push)
         # ---- timeline ---------------------------------------------------------------------------------------
         cur = {}                 # thread name -> current Event
         stacks = {}              # event idx -> tuple of inv ids on the thread's stack
@@ -203,7 +207,8 @@ class C15(Prop):
         def on_push(snap):
             pushes.append({'snap': snap, 'thread': threading.current_thread().name,
                            'ev': cur.get(threading.current_thread().name)})
-        spanp.on_event = on_span
+        for spanp in spanps:
+            spanp.on_event = on_span
         push.on_push = on_push
         ip = probe.Interposer(handler.trace_call, keep_arg=True)
         ip.before_delegate = before
